@@ -438,6 +438,7 @@ def layer3(ctx, failed_rules):
             meta[jid] = job
             jid += 1
     results = {}
+    ctx.log(f"{jid} builds of {ntrees} recipes")
     for s, jobs in jobs_by_seed.items():
         for chunk in range(0, len(jobs), 400):
             for r in run_jobs(jobs[chunk:chunk + 400], s):
@@ -454,11 +455,14 @@ def decide_trees(ctx, meta, results, failed_rules, stream, hist_tags, hist_depth
         status_hist[r["status"]] = status_hist.get(r["status"], 0) + 1
         if r.get("id_rank"):
             id_orders.add((meta[jid]["nv"], tuple(r["id_rank"])))
-        if r["status"] == "ok":
+        if r["status"] == "ok" and not r["mismatch"]:
+            # (a tree whose output already differs numerically is a refuted obligation: not sent to Coq)
             lemmas.append(coqrun.Lemma(f"{stream}_{jid}", r["statement"], r["proof"], vx.show_recipe(vtree.totuple(meta[jid]["recipe"]))))
-    proved = coqrun.prove_lemmas(ctx, stream, vtree.TV_PREAMBLE, lemmas, per_file=ctx.pick(12, 25), timeout=900) if lemmas else {}
+    proved = coqrun.prove_lemmas(ctx, stream, vtree.TV_PREAMBLE, lemmas, per_file=ctx.pick(10, 20), timeout=900) if lemmas else {}
+    ctx.log(f"{stream}: {len(lemmas)} lemmas through coqc")
     n_ok = sum(v == "ok" for v in proved.values())
-    ctx.obligations(len(lemmas), n_ok)
+    n_refuted = sum(1 for r in results.values() if r["status"] == "ok" and r["mismatch"])
+    ctx.obligations(len(lemmas) + n_refuted, n_ok)
     attributed = 0
     fully = 0
     for jid, r in sorted(results.items()):
@@ -494,14 +498,22 @@ def decide_trees(ctx, meta, results, failed_rules, stream, hist_tags, hist_depth
             continue
         hit = r["mismatch"]
         blame = sorted(set(r.get("fired") or []) & failed_rules)
-        if blame and job["mode"] != "diff":
+        if blame:
             # explained by an already reported wrong rule?  rebuild with the reference identity in its place
-            undo = vtree.install_reference(set(blame))
+            undo = vtree.install_reference(set(failed_rules))
             try:
                 r2 = vtree.process({**job, "trace": False, "envs": job["envs"] + [vtree.rand_env(ctx.rng, job["nv"], job["ns"]).to_json()
                     for _ in range(4)]})
             finally:
                 undo()
+            if r2["status"] == "recursion":
+                # with the reported rule repaired, the same tree runs into the (separately reported) non-termination
+                cls = classify_recursion(r2["cycle"])
+                attributed += 1
+                ctx.violation(f"C14:diff:nontermination:{cls}" if job["mode"] == "diff" else f"C14:nontermination:{cls}",
+                    f"{vx.show_recipe(rec)} does not terminate (RecursionError through {', '.join(r2['cycle'])})",
+                    {**base, "observed": "RecursionError", "cycle": r2["cycle"], "expected": "a value"}, True)
+                continue
             if r2["status"] == "ok" and not r2["mismatch"]:
                 attributed += 1
                 if hit:
@@ -526,12 +538,12 @@ def decide_trees(ctx, meta, results, failed_rules, stream, hist_tags, hist_depth
                     "coq_error": str(proved.get(f"{stream}_{jid}"))[-400:], "theorem_or_tie": f"generated lemma {stream}_{jid}"}, False)
     ctx.evaluated(len(results), ndistinct)
     cov = ctx.coverage.setdefault("streams", {})
-    cov[stream] = {"builds": len(results), "distinct_recipes": ndistinct, "lemmas": len(lemmas), "proved": n_ok, "fully_validated": fully,
+    cov[stream] = {"builds": len(results), "distinct_recipes": ndistinct, "lemmas": len(lemmas) + n_refuted, "proved": n_ok, "refuted_numerically": n_refuted, "fully_validated": fully,
         "explained_by_reported_rule": attributed, "status": status_hist, "node_histogram": hist_tags,
         "depth_histogram": {str(k): v for k, v in sorted(hist_depth.items())},
         "distinct_identity_orders": len(id_orders), "hash_seeds": sorted({r.get("hashseed", 0) for r in results.values()})}
     ctx.coverage["programs"] = ctx.coverage.get("programs", 0) + len(results)
-    ctx.coverage["disagreements_checked"] = ctx.coverage.get("disagreements_checked", 0) + (len(lemmas) - n_ok)
+    ctx.coverage["disagreements_checked"] = ctx.coverage.get("disagreements_checked", 0) + (len(lemmas) + n_refuted - n_ok)
     for jid, r in list(sorted(results.items()))[:2]:
         if r["status"] == "ok":
             ctx.sample({"stream": stream, "recipe": vx.show_recipe(vtree.totuple(meta[jid]["recipe"])), "mode": meta[jid]["mode"],
@@ -578,11 +590,16 @@ def run(ctx):
         "Model/VecAlg.v evaluates the calls made inside a rule body semantically (their own soundness is the theorem at smaller "
         "arguments); termination of the real recursion is observed per tree, not proved",
         "the derivative of a vector function of the parameter is an independent vector (fresh atom)")
+    ctx.log("static theorems checked")
     failed = layer1(ctx)
+    ctx.log(f"layer 1 done; rules that are not identities: {sorted(failed)}")
     corr_sort_with_sign(ctx)
     corr_ordered_mul(ctx)
+    ctx.log("correspondence done")
     layer3(ctx, failed)
+    ctx.log("trees done")
     layer_diff(ctx, failed)
+    ctx.log("derivatives done")
     ctx.coverage["rule"] = ("trees: seeded recipes (depth <= 4, <= 22 nodes) over 2-5 vector symbols and 2 real scalar symbols with sums, "
         "scalings, dot/cross/mixed/norm, repeated and composite arguments; each built by the real constructors (automatic evaluation or "
         "evaluate=False + doit()) under several identity orders of the symbols (objects are assigned by id() rank) and hash seeds; "
